@@ -145,8 +145,8 @@ PROPS["C20"] = dict(
 )
 
 PROPS["C11"] = dict(
-    groups=["token"],
-    lean_props=["SeaQ.Props.C11"],
+    groups=["token", "escape", "quote", "spell"],
+    lean_props=["SeaQ.Props.C11", "SeaQ.Props.C11Stmt"],
     lean_obligations=[],
     technique="Lean 4 proof over a model of the template loop (CustomWithExpr arm) and of inject_parameters on top of the C16 tokenizer model: step lemmas for every token situation, verbatim emission of everything that is not a bare mark (with C16 losslessness), and inject_parameters = inline form by induction over statement segments; models tied by structured template generation against cust_with_values (to_string and build) and inject_parameters on 3 backends; independent quote-aware specification as oracle",
     level_text="Machine-checked: for every template and every value list, a token that is not a bare mark (in particular every quoted token, whatever marks it contains) is emitted unchanged; a doubled mark yields one literal mark; `?` takes the next value and `$n` the n-th without disturbing the positional counter; a template without bare marks renders as itself character for character; and for the positional backends inject_parameters over the token stream of a parameterised statement yields its inline form provided no literal token is a bare mark. The Postgres `$word` case is stated as what the code does (the word is swallowed) rather than hidden — it is one of four recorded findings.",
